@@ -165,10 +165,20 @@ func (r *runner) step(o op) (applied bool) {
 		}
 		r.afterStep(X, o, idx)
 		Z.last = observe(Z.st, r.u)
-		// diagnostic only (the statement is about what happens after the copy): is the copy equal to its source?
+		// a copy starts as a copy: every observable reads the same in the fresh copy and in its source
+		// (storage values compared as numbers, see firstDiffCanon). Not judged for a source that already
+		// failed an oracle (its own cache may hold the wrong account).
 		if i, _ := firstDiff(X.last, Z.last); i >= 0 {
-			r.cnt["diag_copy_initial_diffs"]++
-			r.cnt["diag_copy_initial_diff/"+classes[obsClass[i]]+"/"+mname]++
+			r.cnt["diag_copy_initial_raw_diffs"]++
+		}
+		if X.tainted || X.revertBroken {
+			r.cnt["copy_initial_checks_skipped_source_broken"]++
+		} else {
+			r.cnt["copy_initial_checks"]++
+			if i, n := firstDiffCanon(X.last, Z.last); i >= 0 {
+				r.report("copy-initial/"+classes[obsClass[i]], fmt.Sprintf("op#%d %v: right after Copy() %s reads %s in the source (state %d) but %s in the copy (state %d) (%d observables differ) [%s]",
+					idx, o, obsLabel[i], show(i, X.last[i]), X.id, show(i, Z.last[i]), Z.id, n, mname), idx, X.id, Z.id)
+			}
 		}
 		return true
 	case "snap":
